@@ -834,7 +834,8 @@ def sweep_variants(tier):
             ['hook', 'raise', 0, 0, 0, 0, 0]]
   for h1 in hooks:
     for h2 in hooks:
-      add([_BIND1, h1, h2, ['finalize'], _BIND2, ['finalize']])
+      # s/f.a is already bound: a hook-returned value must replace the existing binding
+      add([_BIND1, ['bind', 1, 0, 0, 0, 1], h1, h2, ['finalize'], _BIND2, ['finalize']])
   # (4) every mutator form on a locked config
   muts = [['bind', si, ci, pi, sp, 3] for si in (0, 1) for ci in (0, 1) for pi in (0, 1)
           for sp in range(4)]
@@ -923,6 +924,8 @@ def _benign():
 def _scenario(draw):
   """benign prefix, finalize, anything, an unlock block that raises or nests, anything."""
   ops = draw(st.lists(_benign(), max_size=3))
+  if draw(st.booleans()):
+    ops.append(['hook', 'bind', draw(_i), draw(_i), draw(_i), draw(_i), draw(_val)])
   ops.append(['finalize'])
   ops += draw(st.lists(_ops(0), max_size=2))
   body = draw(st.lists(_ops(1), max_size=3))
@@ -934,6 +937,10 @@ def _scenario(draw):
   else:
     exit_kind = draw(st.sampled_from([EXIT_RAISE, EXIT_RAISE, EXIT_BASE, EXIT_GINCALL]))
   ops.append(['unlock', body, exit_kind])
+  if draw(st.booleans()):
+    # interactive mode is not a way out of the restored lock
+    reg = ['register', draw(st.integers(0, 2))] + draw(st.sampled_from([[], [1, 0], [1, 1]]))
+    ops.append(['interactive', [reg]])
   ops += draw(st.lists(_ops(0), min_size=1, max_size=5))
   return ops
 
@@ -950,11 +957,15 @@ def _reject_scenario(draw):
   # 1-2 rejection causes, every cause class equally likely (sampled_from keeps repetitions as
   # weights; one_of silently drops duplicate branches)
   causes = ['macroref', 'macroref_nested', 'uneval', 'uneval_bound', 'unknown', 'unknown_nested',
-            'required', 'pair', 'hidden_required', 'hidden_required', 'dup', 'invalid', 'raise']
+            'required', 'pair', 'hidden_required', 'hidden_required', 'dup', 'dup', 'invalid',
+            'raise']
   for _ in range(draw(st.sampled_from([1, 1, 2]))):
     cause = draw(st.sampled_from(causes))
     t = [draw(_i), draw(_i), draw(_i), draw(_i), draw(_val)]
-    if cause in ('dup', 'invalid', 'raise'):
+    if cause == 'dup':
+      # two hooks returning the same parameter (the second is forced to another spelling)
+      ops += [['hook', 'bind'] + t, ['hook', 'dup', t[0], len(ops), t[2], t[3] + draw(_i), t[4]]]
+    elif cause in ('invalid', 'raise'):
       ops.append(['hook', cause] + t)
     elif cause == 'uneval_bound':
       # a macro that is bound but referenced without evaluation (needs two ops)
@@ -975,5 +986,7 @@ def _reject_scenario(draw):
 
 def strategy():
   free = st.lists(_ops(0), min_size=1, max_size=14)
-  return st.one_of(free, free, _scenario(), _reject_scenario()).map(
+  # one_of drops duplicate branches, so the second copy is made distinct: free 1/4, locked-unlock
+  # scenario 1/4, rejection scenario 1/2
+  return st.one_of(free, _scenario(), _reject_scenario(), _reject_scenario().map(list)).map(
       lambda ops: {'src': 'hyp', 'ops': _jsonable(ops)})
